@@ -1,5 +1,7 @@
 import Duckling.Model.Compile
 import Duckling.Lemmas.Simple
+import Duckling.Lemmas.TabSound
+import Duckling.Lemmas.TabRound
 /-
   C11 — grouped, triple-quoted, `$` and counted forms equal their expansion.
 
@@ -16,7 +18,12 @@ import Duckling.Lemmas.Simple
   * (`C16_plain_dollar`)       `$CMD expr` emits `CMD v` with v the printed value of expr (for the plain class; `C16_plain_dollar`).
   Known finding D18 (grouped DEFAULT_DELAY evaluates all arguments before applying any) is the reason the
   group/expansion equivalence is stated for commands whose execution does not change what later arguments
-  evaluate to.  The verbatim (triple-quote) form is a property of the indentation parser: see C03.
+  evaluate to.
+  * `C11_verbatim_group`       **the verbatim (triple-quote) form**: a group that begins with a line of three quotes and ends with one is
+                                handed to its command as exactly the lines in between — any number of them, each with the text it has
+                                after one indent unit per enclosing level was removed (so the indentation RELATIVE to the quotes is kept:
+                                nothing more is stripped, no line is re-interpreted as a nested block however it is indented), none added,
+                                none dropped (the lines are non-blank and do not themselves begin with three quotes).
 -/
 namespace Duckling.Props.C11
 open Duckling
@@ -110,5 +117,56 @@ theorem C11_whitespace_range (c : ClsDesc) (a : Arg) (n : Int) (hc : c.cname = "
     (hn : a.content = .int n) : verifyArgHook c a = true ↔ (0 ≤ n ∧ n < 100) := by
   simp [verifyArgHook, hh, hc, hn]
   omega
+
+theorem tripleQuote_not_blank (s : Str) (h : startsWith tripleQuote s = true) : isBlank s = false := by
+  unfold startsWith tripleQuote at h
+  cases s with
+  | nil => simp [List.isPrefixOf] at h
+  | cons a r =>
+    simp only [List.isPrefixOf, Bool.and_eq_true, beq_iff_eq] at h
+    have ha : a = '"' := h.1.symm
+    subst ha
+    simp [isBlank, isSpace]
+
+/-- inside a verbatim region every non-blank line that does not begin with three quotes is kept as it is -/
+theorem goLines_verbatim (rec : ParseFn) (ls : List PreLine)
+    (hls : ∀ l ∈ ls, isBlank l.content = false ∧ startsWith tripleQuote l.content = false) :
+    ∀ (count : Nat) (st : PState), st.free ≠ 0 → st.seen = true →
+      goLines rec count ls st = .ok { st with ret := (ls.map Node.line).reverse ++ st.ret } := by
+  induction ls with
+  | nil => intro count st _ _; simp [goLines]
+  | cons l rest ih =>
+    intro count st hfree hseen
+    obtain ⟨hb, hq⟩ := hls l List.mem_cons_self
+    have hstep : stepLine rec count l st = .ok { st with ret := .line l :: st.ret } := by
+      have hf : (st.free != 0) = true := by simpa using hfree
+      simp [stepLine, hb, hq, hf, hseen]
+    simp only [goLines, hstep]
+    have := ih (fun x hx => hls x (List.mem_cons_of_mem _ hx)) (count + 1) { st with ret := .line l :: st.ret } hfree hseen
+    rw [this]
+    simp
+
+/-- **the verbatim form**: a group `""" … """` is exactly the lines between the quotes -/
+theorem C11_verbatim_group (f : Nat) (tab : Option Str) (q q' : PreLine) (ls : List PreLine)
+    (hq : startsWith tripleQuote q.content = true) (hq' : startsWith tripleQuote q'.content = true) (hnum : q.num ≠ 0)
+    (hls : ∀ l ∈ ls, isBlank l.content = false ∧ startsWith tripleQuote l.content = false) :
+    parseFuel (f + 1) (q :: (ls ++ [q'])) tab = .ok (ls.map Node.line) := by
+  have hqb := tripleQuote_not_blank q.content hq
+  have hqb' := tripleQuote_not_blank q'.content hq'
+  -- the opening line
+  have h0 : stepLine (parseFuel f) 0 q { tab := tab } = .ok { tab := tab, seen := true, free := q.num } := by
+    simp [stepLine, hqb, hq]
+  -- the lines in between
+  have h1 := goLines_verbatim (parseFuel f) ls hls 1 { tab := tab, seen := true, free := q.num } (by simpa using hnum) rfl
+  -- the closing line
+  have h2 : ∀ (c : Nat) (ret : List Node), stepLine (parseFuel f) c q' { tab := tab, seen := true, free := q.num, ret := ret } =
+      .ok { tab := tab, seen := true, free := 0, ret := ret } := by
+    intro c ret
+    have hf : (q.num != 0) = true := by simpa using hnum
+    simp [stepLine, hqb', hq', hf, hnum]
+  simp only [parseFuel, goLines, h0]
+  rw [goLines_append, h1]
+  simp only [goLines, h2, List.append_nil, finishParse]
+  simp
 
 end Duckling.Props.C11
